@@ -10,6 +10,20 @@ impl BlockUnclesVerifier {
         uncles: &[core::UncleBlockView],
     ) -> Status {
         let expected_uncles = block.uncles();
+        // The indexes were recorded for the compact block this peer announced, the pending
+        // compact block may be the one another peer announced for the same header.
+        if let Some(index) = indexes
+            .iter()
+            .find(|index| **index as usize >= expected_uncles.len())
+        {
+            return StatusCode::BlockUnclesLengthIsUnmatchedWithPendingCompactBlock.with_context(
+                format!(
+                    "Index({}) is out of the pending compact block's bound({})",
+                    index,
+                    expected_uncles.len(),
+                ),
+            );
+        }
         let expected_ids: Vec<packed::Byte32> = indexes
             .iter()
             .filter_map(|index| expected_uncles.get(*index as usize))
